@@ -28,8 +28,9 @@ VARIABLES m1,   \* [decl : SUBSET Names, accx : Acc, defpriv : BOOLEAN]
           m2,   \* [decl, accx, accy, defpriv, use1 : Clauses]
           p,    \* [decl, use1, use2 : Clauses]
           q,    \* [decl]
-          res   \* reference site -> set of entities (computed in Init)
-vars == <<m1, m2, p, q, res>>
+          res,  \* reference site -> set of entities (computed in Init)
+          ctx   \* what completion must offer in the restricting contexts (computed in Init)
+vars == <<m1, m2, p, q, res, ctx>>
 
 Ent(s, n) == <<s, n>>
 PublicIn(decl, acc, defpriv, n) == n \in decl /\ (acc = "pub" \/ (acc = "def" /\ ~defpriv))
@@ -71,6 +72,16 @@ Res(M1, M2, P, Q) == [st \in Sites |->
      [] st[1] = "q"  -> ResolveQ(M1, M2, P, Q, st[2])
      [] st[1] = "m2" -> Resolve2(M1, M2, st[2])]
 
+\* Completion contexts: after USE only modules; after "USE m, ONLY:" exactly what m exports; after CALL
+\* only callable entities (s2 is a public module procedure of m2 unless m2 is PRIVATE by default; q is
+\* the internal procedure of p).
+Ctx(M1, M2, P, Q) ==
+  [useModules |-> {"m1", "m2"},
+   only1      |-> NamesOf(Exp1(M1)),
+   only2      |-> NamesOf(Exp2(M1, M2)) \cup (IF M2.defpriv THEN {} ELSE {"s2"}),
+   callP      |-> {"q"} \cup (IF P.use2 = "all" /\ ~M2.defpriv THEN {"s2"} ELSE {}),
+   callM2     |-> {"s2"}]
+
 Valid(M1, M2, P, Q) ==
   /\ ClauseOk(M2.use1, Exp1(M1)) /\ ClauseOk(P.use1, Exp1(M1)) /\ ClauseOk(P.use2, Exp2(M1, M2))
   /\ M2.decl \cap NamesOf(Imp2(M1, M2)) = {}                 \* a name is not both declared and use-associated
@@ -86,6 +97,7 @@ Init == /\ m1 \in [decl : {{"x"}, {"x", "y"}}, accx : Acc, defpriv : BOOLEAN]
         /\ q \in [decl : {{}, {"x"}}, use1 : {"none", "onlyy", "onlyx"}]
         /\ Valid(m1, m2, p, q)
         /\ res = Res(m1, m2, p, q)
+        /\ ctx = Ctx(m1, m2, p, q)
 Next == UNCHANGED vars
 Spec == Init /\ [][Next]_vars
 
@@ -98,5 +110,7 @@ LocalShadows == \A n \in q.decl : res[<<"q", n>>] = {Ent("q", n)}
 HostAssociation == \A n \in {"x", "y", "lx"} : (n \notin q.decl /\ n \notin NamesOf(ImpQ(m1, q))) => res[<<"q", n>>] = res[<<"p", n>>]
 DefaultPrivateBlocksReexport == m2.defpriv => \A e \in res[<<"p", "x">>] \cup res[<<"p", "y">>] :
                                    e[1] = "m1" => p.use1 # "none"
+CallableNeverAVariable == ctx.callP \cap {"x", "y", "lx"} = {} /\ ctx.callM2 \cap {"x", "y", "lx"} = {}
+OnlyListsAreExports == ctx.only1 \subseteq m1.decl
 RenameHidesOriginal == (p.use1 = "renlx" /\ p.use2 = "none" /\ "x" \notin p.decl) => res[<<"p", "x">>] = {}
 =============================================================================
